@@ -1145,6 +1145,28 @@ func proveAssert(p *Program, fn *ssa.Function, ta *ssa.TypeAssert, three map[str
 			}
 			onTrue := (d.Succs[0] == ta.Block() || d.Succs[0].Dominates(ta.Block())) && len(d.Succs[0].Preds) == 1
 			onFalse := (d.Succs[1] == ta.Block() || d.Succs[1].Dominates(ta.Block())) && len(d.Succs[1].Preds) == 1
+			// the opcode found in a table all of whose keys are opcodes with an
+			// operand (a map literal that is never written)
+			if ex, isEx := iff.Cond.(*ssa.Extract); isEx && ex.Index == 1 && onTrue && okLen {
+				if lk, isLk := ex.Tuple.(*ssa.Lookup); isLk && stripConvSSA(lk.Index) == ssa.Value(opc) {
+					if ld, isLd := lk.X.(*ssa.UnOp); isLd {
+						if g, isG := ld.X.(*ssa.Global); isG {
+							if keys, _, _, ok := globalMapLiteral(p, g); ok && len(keys) > 0 {
+								all := true
+								for _, k := range keys {
+									kv, exact := constant.Int64Val(k)
+									if k.Kind() != constant.Int || !exact || !three[oc.byVal[kv]] {
+										all = false
+									}
+								}
+								if all {
+									return "shape", "dominated by a successful look-up of the opcode in " + g.Name() + ", a table that is never written and whose keys are all opcodes with an operand: the walker passes an int for those (code.Length agrees, R-EMITLEN)"
+								}
+							}
+						}
+					}
+				}
+			}
 			bo, ok := iff.Cond.(*ssa.BinOp)
 			if !ok {
 				continue
@@ -1798,18 +1820,103 @@ func (pp *panicProver) constRefShape(index, base ssa.Value) string {
 			k = i
 		}
 	}
-	sites, why := 0, ""
-	for g := range ssautil.AllFunctions(pp.fn.Prog) {
-		for _, b := range g.Blocks {
-			for _, ins := range b.Instrs {
-				for _, op := range ins.Operands(nil) {
-					if *op == ssa.Value(pp.fn) {
-						if cc := callOf(ins); cc == nil || cc.Value != ssa.Value(pp.fn) {
-							return "" // used as a value
+	return constRefParam(pp.p, pp.fn, k, 0)
+}
+
+// constRefParam: parameter k of the method fn only ever receives the operand
+// of an instruction that refers to a constant, for the evaluator fn is called
+// on: at every direct call the argument is such an operand in a visitor, or
+// the caller's own parameter of which the same holds; or fn is only stored in
+// a table of handlers keyed by opcode — under opcodes that refer to constants
+// only — and the one place that calls through the table is a visitor that
+// looks its own opcode up and hands its own operand over.
+func constRefParam(p *Program, fn *ssa.Function, k int, depth int) string {
+	if depth > 3 || k < 0 {
+		return ""
+	}
+	refs := constRefOpcodes(p)
+	oc := p.Opcodes()
+	// (the wrapper go/ssa makes for a method expression stands for the method)
+	target := fn
+	if fnPkg(fn) == nil && fn.Synthetic != "" {
+		for _, fb := range fn.Blocks {
+			for _, fi := range fb.Instrs {
+				if c2 := callOf(fi); c2 != nil && c2.StaticCallee() != nil {
+					target = c2.StaticCallee()
+				}
+			}
+		}
+	}
+	if functionUsedAsValue(p, fn) || target != fn {
+		fn := target
+		// stored in handler tables only?
+		n := 0
+		for _, g := range handlerTablesHolding(p, fn) {
+			keys, ok := g.keysOf[fn]
+			if !ok || len(keys) == 0 {
+				return ""
+			}
+			for _, kv := range keys {
+				if !refs[oc.byVal[kv]] {
+					return ""
+				}
+			}
+			// the calls through this table
+			calls := 0
+			for _, h := range p.LibFns {
+				for _, b := range h.Blocks {
+					for _, ins := range b.Instrs {
+						c, ok := ins.(*ssa.Call)
+						if !ok || c.Call.StaticCallee() != nil || c.Call.IsInvoke() {
+							continue
+						}
+						tg, _, ok := moduleFuncTable(p, c.Call.Value)
+						if !ok || tg != g.global {
+							continue
+						}
+						calls++
+						if !isWalkerCallback(h) || k >= len(c.Call.Args) {
+							return ""
+						}
+						// looked up under the visitor's own opcode …
+						var lk *ssa.Lookup
+						switch x := c.Call.Value.(type) {
+						case *ssa.Extract:
+							lk, _ = x.Tuple.(*ssa.Lookup)
+						case *ssa.Lookup:
+							lk = x
+						}
+						if lk == nil || stripConvSSA(lk.Index) != ssa.Value(h.Params[len(h.Params)-2]) {
+							return ""
+						}
+						// … and handed the visitor's own operand, for the same evaluator
+						ta, ok := c.Call.Args[k].(*ssa.TypeAssert)
+						if !ok || ta.X != ssa.Value(h.Params[len(h.Params)-1]) {
+							return ""
+						}
+						if len(h.Params) == 0 || (c.Call.Args[0] != ssa.Value(h.Params[0])) {
+							if fv, isFV := c.Call.Args[0].(*ssa.FreeVar); !isFV || fv == nil {
+								return ""
+							}
 						}
 					}
 				}
-				c, ok := staticCalleeIs(ins, pp.fn)
+			}
+			if calls == 0 {
+				return ""
+			}
+			n++
+		}
+		if n == 0 {
+			return ""
+		}
+		return "the operand of an instruction whose opcode is a key of the handler table this function is stored under, all of which take their operand from the constant pool's own index (R-CONSTREF)"
+	}
+	sites, why := 0, ""
+	for g := range ssautil.AllFunctions(fn.Prog) {
+		for _, b := range g.Blocks {
+			for _, ins := range b.Instrs {
+				c, ok := staticCalleeIs(ins, fn)
 				if !ok {
 					continue
 				}
@@ -1817,7 +1924,17 @@ func (pp *panicProver) constRefShape(index, base ssa.Value) string {
 				if len(g.Params) == 0 || c.Call.Args[0] != ssa.Value(g.Params[0]) || k >= len(c.Call.Args) {
 					return ""
 				}
-				w := constRefAt(pp.p, g, c.Call.Args[k])
+				w := constRefAt(p, g, c.Call.Args[k])
+				if w == "" {
+					// the caller's own parameter, of which the same must hold
+					if gp, isP := c.Call.Args[k].(*ssa.Parameter); isP && gp.Parent() == g {
+						for i, q := range g.Params {
+							if q == gp {
+								w = constRefParam(p, g, i, depth+1)
+							}
+						}
+					}
+				}
 				if w == "" {
 					return ""
 				}
@@ -1829,6 +1946,106 @@ func (pp *panicProver) constRefShape(index, base ssa.Value) string {
 		return ""
 	}
 	return fmt.Sprintf("at each of its %d call site(s) the index is %s", sites, why)
+}
+
+// handlerTable: a package-level map from opcode to handler function, with the
+// keys each function is stored under.
+type handlerTable struct {
+	global *ssa.Global
+	keysOf map[*ssa.Function][]int64
+}
+
+// handlerTablesHolding: the opcode-keyed handler tables whose initialisation
+// stores fn (directly, or as the wrapper go/ssa makes for a method
+// expression); nil if fn is referred to as a value anywhere else.
+func handlerTablesHolding(p *Program, fn *ssa.Function) []handlerTable {
+	resolve := func(v ssa.Value) *ssa.Function {
+		if ct, ok := v.(*ssa.ChangeType); ok {
+			v = ct.X
+		}
+		var f *ssa.Function
+		switch x := v.(type) {
+		case *ssa.Function:
+			f = x
+		case *ssa.MakeClosure:
+			f, _ = x.Fn.(*ssa.Function)
+		}
+		if f != nil && fnPkg(f) == nil && f.Synthetic != "" {
+			for _, fb := range f.Blocks {
+				for _, fi := range fb.Instrs {
+					if c2 := callOf(fi); c2 != nil && c2.StaticCallee() != nil {
+						f = c2.StaticCallee()
+					}
+				}
+			}
+		}
+		return f
+	}
+	var out []handlerTable
+	for _, pk := range p.SSA.AllPackages() {
+		if pk.Pkg == nil || !IsLibPath(pk.Pkg.Path()) {
+			continue
+		}
+		pi := pk.Func("init")
+		if pi == nil {
+			continue
+		}
+		stored := map[ssa.Value]*ssa.Global{}
+		for _, b := range pi.Blocks {
+			for _, ins := range b.Instrs {
+				if st, ok := ins.(*ssa.Store); ok {
+					if g, ok := st.Addr.(*ssa.Global); ok {
+						stored[st.Val] = g
+					}
+				}
+			}
+		}
+		tables := map[*ssa.Global]*handlerTable{}
+		for _, b := range pi.Blocks {
+			for _, ins := range b.Instrs {
+				mu, ok := ins.(*ssa.MapUpdate)
+				if !ok || resolve(mu.Value) != fn {
+					continue
+				}
+				g := stored[mu.Map]
+				kc, isC := mu.Key.(*ssa.Const)
+				if g == nil || !isC || kc.Value == nil || kc.Value.Kind() != constant.Int || !isOpcodeType(kc.Type()) {
+					return nil
+				}
+				if tables[g] == nil {
+					tables[g] = &handlerTable{global: g, keysOf: map[*ssa.Function][]int64{}}
+				}
+				kv, _ := constant.Int64Val(kc.Value)
+				tables[g].keysOf[fn] = append(tables[g].keysOf[fn], kv)
+			}
+		}
+		for _, t := range tables {
+			out = append(out, *t)
+		}
+	}
+	// no reference to fn as a value outside those initialisers (p.Fns does not
+	// contain them)
+	for _, g := range p.Fns {
+		for _, b := range g.Blocks {
+			for _, ins := range b.Instrs {
+				cc := callOf(ins)
+				for _, op := range ins.Operands(nil) {
+					if op == nil || *op == nil {
+						continue
+					}
+					if resolve(*op) == fn && !(cc != nil && cc.Value == *op) {
+						if _, isFn := (*op).(*ssa.Function); isFn || true {
+							if f2, ok := (*op).(*ssa.Function); ok && f2 == fn && cc != nil && cc.Value == *op {
+								continue
+							}
+							return nil
+						}
+					}
+				}
+			}
+		}
+	}
+	return out
 }
 
 // constRefAt: in the visitor fn, index is the operand asserted to an integer
